@@ -216,13 +216,12 @@ Proof.
 Qed.
 
 (* ---- idempotence of the by-reference model ---------------------------------------------------- *)
-Lemma validate_idempotent_unaliased T I h s h1 s1 :
-  wf h s = true -> impl_unaliased s ->
-  validate T I h s = (h1, Ok s1) ->
+Lemma validate_idempotent_heap T I h s h1 s1 :
+  wf h s = true -> validate T I h s = (h1, Ok s1) ->
   exists h2 s2, validate T I h1 s1 = (h2, Ok s2) /\ view h2 s2 = view h1 s1.
 Proof.
-  intros W U H.
-  pose proof (validate_refines T I h s (conj W U)) as R. rewrite H in R. destruct R as [R1 [R2 R3]].
+  intros W H.
+  pose proof (validate_refines T I h s W) as R. rewrite H in R. destruct R as [R1 [R2 R3]].
   pose proof (validate_refines T I h1 s1 R3) as R'.
   assert (Len : List.length (lists h s) = NF) by (rewrite lists_length; apply (wf_length h s W)).
   pose proof (cvalidate_idem T I _ _ _ Len R1) as Id. rewrite <- R2 in Id.
